@@ -448,8 +448,21 @@ package raft
 // ---------------------------------------------------------------------------
 // AppendEntries handler (C02, C04, C06, C08, C19)
 
-//@ func isEntryBuffered params(r)
+// bufio (T-std): Buffered is the number of bytes that can be read from the buffer; Peek(n) with 0 <= n <= Buffered
+// returns exactly n bytes and no error, without consuming anything (gbuffered: ghost, bytes buffered per reader)
+//@ ghost var gbuffered map[uint64]int
+//@ func (*bufio.Reader).Buffered params(b)
 //@   trusted
+//@   ensures result0 == gbuffered[ref(b)] && result0 >= 0
+//@ func (*bufio.Reader).Peek params(b, n)
+//@   trusted
+//@   ensures 0 <= n && n <= gbuffered[ref(b)] ==> result1 == nil
+//@   ensures result1 == nil ==> len(result0) == n
+// isEntryBuffered: no out-of-range access and the internal assertion holds (C15)
+//@ func isEntryBuffered params(r)
+//@   props C15
+//@   requires r != nil
+//@   ensures [C15.header-needed] result0 ==> gbuffered[ref(r)] >= 21
 
 // abstract view of entry.decode for the entry stream of an AppendEntries request (PA1 ghost);
 // the byte-level contract of the function itself is in verif_contracts_codec.go
@@ -478,6 +491,7 @@ package raft
 //@   ensures [C17.stale-ignored] req.term < old(r.term) ==> result0 != success && r.term == old(r.term) && r.state == old(r.state) && r.leader == old(r.leader) && r.commitIndex == old(r.commitIndex) && r.lastLogIndex == old(r.lastLogIndex)
 //@   ensures [C19.commit-monotone] r.commitIndex >= old(r.commitIndex)
 //@   ensures [C19.nodeinv] result0 != unexpectedErr ==> LogWF(r.storage) && r.commitIndex <= r.lastLogIndex
+//@   ensures [C19+C08.nodeinv-config] result0 != unexpectedErr ==> CfgWF(r.storage)
 //@   ensures [C04.consistency-check] result0 == success && req.prevLogIndex > r.snaps.index ==> req.prevLogIndex <= old(r.lastLogIndex) && old(r.gterm[req.prevLogIndex]) == req.prevLogTerm
 //@   ensures [C04.entries-stored] result0 == success ==> forall(j, old(spos[ref(c.bufr)]) <= j && j < old(spos[ref(c.bufr)]) + old(req.numEntries) && sIdx(ref(c.bufr), j) > r.snaps.index ==> sIdx(ref(c.bufr), j) <= r.lastLogIndex && r.gterm[sIdx(ref(c.bufr), j)] == sTerm(ref(c.bufr), j))
 //@   ensures [C02.prefix-untouched] forall(i, i <= req.prevLogIndex ==> r.gterm[i] == old(r.gterm[i])) && (result0 == success ==> r.lastLogIndex >= req.prevLogIndex || r.lastLogIndex >= old(r.lastLogIndex))
